@@ -166,7 +166,7 @@ def run_history(ops, pre5=False):
                 out = {'ok': r}
             except Exception as e:  # noqa
                 out = {'err': common.err_class(e), 'exc': type(e).__name__}
-            obs.append((out, dump_store(coll)))
+            obs.append((out, dump_store(coll), canon(coll.index_information())))
     return obs, notes
 
 
@@ -249,17 +249,18 @@ def op_to_coq(op):
     raise ValueError(o)
 
 
-def obs_to_coq(out, store):
+def obs_to_coq(out, store, idx):
     if 'ok' in out:
         r = 'Ok (%s)' % to_coq(out['ok'])
     else:
         r = 'Err %s' % out['err']
-    return '(%s, %s)' % (r, coq_list('(%s, %s)' % (to_coq(k), to_coq(d)) for k, d in store))
+    return '(%s, %s, %s)' % (r, coq_list('(%s, %s)' % (to_coq(k), to_coq(d)) for k, d in store),
+                             to_coq(idx))
 
 
 def case_to_coq(ops, obs, pre5):
     return 'HistCase %s %s %s' % (coq_bool(pre5), coq_list(op_to_coq(o) for o in ops),
-                                  coq_list(obs_to_coq(o, s) for o, s in obs))
+                                  coq_list(obs_to_coq(o, s, i) for o, s, i in obs))
 
 
 # ------------------------------------------------------------------ generators
@@ -278,6 +279,7 @@ def small_doc(rng, ids=IDS, depth=1, **kw):
 
 def state_docs(obs):
     return [d for _, d in obs[-1][1]] if obs else []
+
 
 
 def gen_filter(rng, docs, **kw):
